@@ -19,15 +19,31 @@ impl Adapter for HedgeAd {
         "hedge"
     }
     fn gen_cfg(&mut self, rng: &mut Rng, _size: Size) -> Value {
-        json!({"hm": rng.below(4), "max": 1 + rng.below(4), "mode": *rng.pick(&["fixed", "fixed", "par", "dyn"]), "d": 1 + rng.below(3), "lazy": if rng.pct(30) { 1 } else { 0 }})
+        json!({"hm": rng.below(4), "max": 1 + rng.below(4), "mode": *rng.pick(&["fixed", "fixed", "par", "dyn"]), "d": 1 + rng.below(3), "lazy": if rng.pct(30) { 1 } else { 0 }, "pre": rng.below(4), "ord": rng.below(2)})
     }
     fn build(&mut self, cfg: &Value, sim: &mut Sim) {
-        let mut b = HedgeLayer::builder().max_hedged_attempts(cfg["max"].as_u64().unwrap() as usize);
+        // cfg.pre: an earlier, overridden delay setting of another kind (the last one wins); cfg.ord: the
+        // number of attempts before or after the delay
+        let max = cfg["max"].as_u64().unwrap() as usize;
+        let mut b = HedgeLayer::builder();
+        let late_max = cfg["ord"].as_u64().unwrap_or(0) == 1;
+        if !late_max {
+            b = b.max_hedged_attempts(max);
+        }
+        b = match cfg["pre"].as_u64().unwrap_or(0) {
+            1 => b.no_delay().name("pre"),
+            2 => b.delay(Duration::from_millis(40)),
+            3 => b.delay_fn(|_| Duration::from_millis(50)),
+            _ => b,
+        };
         b = match cfg["mode"].as_str().unwrap() {
             "fixed" => b.delay(Duration::from_millis(cfg["d"].as_u64().unwrap())),
             "par" => b.no_delay(),
             _ => b.delay_fn(|k| Duration::from_millis(if k == 1 { 2 } else { 1 })),
         };
+        if late_max {
+            b = b.max_hedged_attempts(max);
+        }
         self.svc = Some(Handles::new(b.build().layer(Inner::new(&sim.w)), cfg["hm"].as_u64().unwrap_or(0)));
     }
     fn mk(&mut self, req: &Req) -> CallFut {
